@@ -51,6 +51,10 @@ idioms is part of the trusted base.
     T[inds] = V ; T[inds] /= nominal                 the same
     if isinstance(inds, (int, np.integer)) and isinstance(X, np.ndarray): X = X.item()   nothing
                                                      (a one-element array is the scalar)
+
+SECOND MODULE (C05 only): `gen_layout_pins(c)` further down regenerates `lean/RtcVerif/Gen/LayoutPins.lean` from
+`discretize_states`, `discretize_control(s)`, the merge of the index tables, the history-pin / initial-derivative
+loops and the initial-derivative nominals of `transcribe()`; its construct table precedes its code.
 """
 import ast
 import os
@@ -510,3 +514,1198 @@ def gen_bounds_kernel(c):
             f.write(text)
         os.replace(tmp, path)
     return [("RtcVerif.Gen.BoundsKernel", "RtcVerif.Gen", THEOREMS)]
+
+
+# =====================================================================================================
+# Second generated module: Gen/LayoutPins.lean — index allocation and history pins
+# =====================================================================================================
+"""
+Translated on every run (C05 only) into `lean/RtcVerif/Gen/LayoutPins.lean`:
+
+  discretize_states      the size count (`memberSizeGen`, `stateCountGen`) and the per-member allocation loops
+                         (`stateSlotsGen`)                                          = L.memberSizeK / L.stateSlotsK
+  discretize_control     cache lookup / new slice (`discretizeControlGen`)          = L.discretizeControlK
+  discretize_controls    body of the member loop (`ctrlStepGen`), loop nest (`ctrlSlotsGen`) = L.ctrlSlotsK
+  transcribe()           merge of the two index tables (`shiftGen`)                 = L.shiftK
+                         history-pin loop body (`pinStepGen`), iteration order (`pinVarsGen`)
+                                                                                    = C05.applyPins (one step) / C05.pinVars
+                         initial-derivative loop body (`derStepGen`)                = C05.derPin
+                         loop body filling self.__initial_derivative_nominals (`derNominalGen`) = C05.derNominal
+`L.*` (lean/RtcVerif/Model/C05Layout.lean) are reference definitions in the shape of the source;
+`Proofs/C05Layout.lean` proves them equal to the model of the property theorems (`memberSize`, `ctrlSize`,
+`stateIndex`, `ctrlIndex`, `pinIndex`, `derIndex`, `applyPins`, `derPin`); the generated module states both.
+
+CLOSED TABLE (second module)  Python construct  →  model term   (anything else is REJECTED)
+
+  lists of variables (loop iterables; names are keys, a variable is its `Blk`, a control's key its position)
+    self.differentiated_states / self.__differentiated_states      I.states
+    self.algebraic_states                                           I.algs
+    self.controls                                                   I.controls
+    self.__path_variable_names                                      I.paths
+    self.__extra_variable_names                                     I.extras
+    self.__initial_derivative_names                                 L.derBlocks I   (one single-entry slot per state)
+    itertools.chain(A, B, ...)                                      A ++ B ++ ...
+    len(self.dae_variables["derivatives"])                          I.states.length
+    range(self.ensemble_size) / self.ensemble_size                  members 0 … I.E-1 / I.E ; loop variable = m
+  numbers (natural-number polynomials, emitted in a canonical order: commuted sums / products are the same text)
+    variable_sizes[v] (alias of self.__variable_sizes)              b.size
+    len(self.times(v)) / times = self.times(v); len(times)          b.n
+    integer literals, +, *, +=                                      themselves
+    self.integrate_states                                           False (the model covers collocated states only;
+                                                                    the integrated branch is skipped, `assert`s in it too)
+  index values
+    slice(a, b)                                                     L.Slot.slice a b
+    a plain integer offset                                          L.Slot.int a
+    X.start / X.stop / isinstance(X, slice)                         fields / case of the slot
+    control_indices.stop if isinstance(control_indices, slice) else …   .stop (the default discretize_control returns slices)
+    max(a, b)                                                       max a b  (arguments in canonical order)
+    indices[ensemble_member][v] = S                                 the slot of (m, v), in insertion order
+    try: return cache[variable] except KeyError: …; cache[variable] = S    List.lookup / cons on the cache
+    self.__indices_as_lists[ensemble_member][variable][0]           first entry of self.__indices[m][variable]: parameter `idx`
+                                                                    of pinStepGen, = (pinSlotGen I m k).first = pinIndex I m k
+    self.__indices[ensemble_member][initial_der_name]               the int slot of the derivative (derSlotGen, = derIndex I m i)
+  history block (floats are XVal; a history value `none` = NaN)
+    history[variable] inside try / except KeyError: pass / else:    h : Option Hist, `none` = no entry
+    self.interpolate(t0, H.times, H.values, np.nan, np.nan, self.interpolation_method(variable))
+                                                                    L.interpolate b h NaN NaN t0  (Option: `none` = raises)
+    val /= self.variable_nominal(variable)                          xdivPos val (L.nominal b)
+    val /= self.variable_nominal(initial_der_name)                  L.divNom val nomDer
+    np.isnan(x) / not c / c1 or c2 / a == b / a <= b                L.isnan x = true / ¬ c / c1 ∨ c2 / a = b / a ≤ b
+    len(H.times)                                                    h.times.length
+    H.values[-1] / H.values[-2] / H.times[-1] / H.times[-2]         L.valAt1 h / L.valAt2 h / L.timeAt1 h / L.timeAt2 h
+    (a - H.values[-2]) / (t0 - H.times[-2])                         L.backDiff a (L.valAt2 h) (L.timeAt2 h) t0
+    lbx[idx] = ubx[idx] = val   (history pin)                       (lbx.set idx val, ubx.set idx val)
+    lbx[idx] = ubx[idx] = val   (initial derivative)                L.pinOf val
+    continue / assert c                                             DerPin.free / `if ¬ c then DerPin.raise`
+    the branch that appends ONE row to initial_derivative_constraints and writes no bound    DerPin.symbolic
+                                                                    (the row expression itself is not translated)
+    logger.*(...), `if …: logger.warning(...)`                      nothing
+  nominals of the initial derivatives (every path through the loop body is written out; names are substituted)
+    for variable, initial_der_name in zip(self.__differentiated_states, self.__initial_derivative_names)   one state `b`
+    history_0 = self.history(0); try: h = history_0[variable] … except KeyError: …    h0 : Option Hist, `none` = handler
+    times = self.times(variable); times[k] / h.times[k] (k = 0, 1)  b.times[k]? / h.times[k]?   (`.getD 0` inside arithmetic)
+    h.times[-1] / h.times[-2]                                       L.last1 h.times / L.last2 h.times
+    len(times) > k / len(h.values) == k / a == b / c1 or c2 / x > 0 the same comparisons (indices compared as Options)
+    a - b / self.variable_nominal(variable) / dt                    rational arithmetic, L.nominal b
+    assert c                                                        `if ¬ c then none`
+    self.__initial_derivative_nominals[initial_der_name] = e        some e  (must be the last statement of its path)
+"""
+
+_VARS = ("offset", "s", "e", "i", "st.count")
+
+
+class _Poly(dict):
+    """natural-number polynomial: {sorted tuple of atoms: coefficient}"""
+
+    @staticmethod
+    def const(k):
+        p = _Poly()
+        if k:
+            p[()] = k
+        return p
+
+    @staticmethod
+    def atom(a):
+        p = _Poly()
+        p[(a,)] = 1
+        return p
+
+    def add(self, o):
+        r = _Poly(self)
+        for k, v in o.items():
+            r[k] = r.get(k, 0) + v
+        return r
+
+    def mul(self, o):
+        r = _Poly()
+        for k1, v1 in self.items():
+            for k2, v2 in o.items():
+                k = tuple(sorted(k1 + k2))
+                r[k] = r.get(k, 0) + v1 * v2
+        return r
+
+    def atoms(self):
+        return {a for k in self for a in k}
+
+    def without(self, atom):
+        """(p - atom) if p = atom + rest with rest free of atom, else None"""
+        if self.get((atom,), 0) != 1:
+            return None
+        r = _Poly({k: v for k, v in self.items() if k != (atom,)})
+        return None if atom in r.atoms() else r
+
+    def lean(self):
+        def key(k):
+            return (len(k), tuple((a not in _VARS, a) for a in k))
+        out = []
+        for k in sorted(self, key=key):
+            c = self[k]
+            if not k:
+                out.append(str(c))
+            else:
+                out.append(((str(c) + " * ") if c != 1 else "") + " * ".join(k))
+        return " + ".join(out) if out else "0"
+
+
+def _attr_self(node, names):
+    return isinstance(node, ast.Attribute) and isinstance(node.value, ast.Name) and node.value.id == "self" \
+        and node.attr in names
+
+
+_LISTS = {"differentiated_states": "I.states", "__differentiated_states": "I.states", "algebraic_states": "I.algs",
+          "controls": "I.controls", "__path_variable_names": "I.paths", "__extra_variable_names": "I.extras",
+          "__initial_derivative_names": "(L.derBlocks I)"}
+
+
+def _var_list(node):
+    """Lean term of a loop iterable over variables"""
+    if isinstance(node, ast.Attribute) and _attr_self(node, _LISTS):
+        return _LISTS[node.attr]
+    if isinstance(node, ast.Call) and _u(node.func) == "itertools.chain" and node.args and not node.keywords:
+        parts = [_var_list(a) for a in node.args]
+        return parts[0] if len(parts) == 1 else "(" + " ++ ".join(parts) + ")"
+    raise TranslationError("unsupported list of variables `%s`" % _u(node))
+
+
+def _is_member_range(node):
+    return _u(node).replace(" ", "") == "range(self.ensemble_size)"
+
+
+class _Nat:
+    """natural-number expressions of the allocation code"""
+
+    def __init__(self, env):
+        self.env = env      # python name -> ("poly", _Poly) | ("var", listterm) | ("times", var) | ("sizes",) | ("slot", term)
+
+    def poly(self, node):
+        v = self.val(node)
+        if v[0] != "poly":
+            raise TranslationError("`%s` is not a number" % _u(node))
+        return v[1]
+
+    def val(self, node):
+        if isinstance(node, ast.Constant) and isinstance(node.value, int) and not isinstance(node.value, bool) \
+                and node.value >= 0:
+            return ("poly", _Poly.const(node.value))
+        if isinstance(node, ast.Name):
+            if node.id not in self.env:
+                raise TranslationError("unknown name `%s`" % node.id)
+            return self.env[node.id]
+        if _attr_self(node, ("ensemble_size",)):
+            return ("poly", _Poly.atom("I.E"))
+        if _attr_self(node, ("__variable_sizes",)):
+            return ("sizes",)
+        if isinstance(node, ast.BinOp) and isinstance(node.op, (ast.Add, ast.Mult)):
+            a, b = self.poly(node.left), self.poly(node.right)
+            return ("poly", a.add(b) if isinstance(node.op, ast.Add) else a.mul(b))
+        if isinstance(node, ast.Subscript) and self.val(node.value) == ("sizes",):
+            v = self.val(node.slice)
+            if v[0] == "var":
+                return ("poly", _Poly.atom("b.size"))
+            raise TranslationError("size of something that is not the loop variable: `%s`" % _u(node))
+        if _is_self_call(node, "times") and len(node.args) == 1 and not node.keywords:
+            v = self.val(node.args[0])
+            if v[0] == "var":
+                return ("times", v[1])
+            raise TranslationError("times of something that is not the loop variable: `%s`" % _u(node))
+        if isinstance(node, ast.Call) and isinstance(node.func, ast.Name) and node.func.id == "len" and len(node.args) == 1:
+            a = node.args[0]
+            if _u(a).replace('"', "'").replace(" ", "") == "self.dae_variables['derivatives']":
+                return ("poly", _Poly.atom("I.states.length"))
+            v = self.val(a)
+            if v[0] == "times":
+                return ("poly", _Poly.atom("b.n"))
+            if v == ("ntimes_arg",):
+                return ("poly", _Poly.atom("ntimes"))
+            raise TranslationError("len of `%s`" % _u(a))
+        if isinstance(node, ast.Call) and isinstance(node.func, ast.Name) and node.func.id == "slice" \
+                and len(node.args) == 2 and not node.keywords:
+            return ("slot", "L.Slot.slice (%s) (%s)" % (self.poly(node.args[0]).lean(), self.poly(node.args[1]).lean()))
+        raise TranslationError("unsupported expression `%s`" % _u(node))
+
+    def slot(self, node):
+        v = self.val(node)
+        if v[0] == "slot":
+            return v[1]
+        if v[0] == "poly":
+            return "L.Slot.int (%s)" % v[1].lean()
+        raise TranslationError("`%s` is not an index value" % _u(node))
+
+
+def _is_integrate_states(node):
+    return _attr_self(node, ("integrate_states",))
+
+
+def _tr_discretize_states(fn):
+    env = {}
+    ev = _Nat(env)
+    size_lines = []
+    acc = None
+    body = list(fn.body)
+    k = 0
+
+    def acc_assign(name, p):
+        nonlocal acc
+        if acc is None:
+            acc = name
+        if name != acc:
+            raise TranslationError("a second size accumulator `%s`" % name)
+        size_lines.append("  let s := %s" % p.lean())
+        env[name] = ("poly", _Poly.atom("s"))
+
+    def size_stmt(st, loopvar=None, terms=None):
+        """statements of the size count; inside a loop `terms` collects the added term"""
+        if isinstance(st, ast.Expr) and isinstance(st.value, ast.Constant):
+            return
+        if isinstance(st, ast.If) and _is_integrate_states(st.test):
+            for x in st.orelse:
+                size_stmt(x, loopvar, terms)
+            return
+        if isinstance(st, ast.Assign) and len(st.targets) == 1 and isinstance(st.targets[0], ast.Name):
+            nm = st.targets[0].id
+            v = ev.val(st.value)
+            if v[0] == "poly" and loopvar is None:
+                return acc_assign(nm, v[1])
+            if v[0] in ("sizes", "times"):
+                env[nm] = v
+                return
+            if v[0] == "poly":
+                env[nm] = v
+                return
+        if isinstance(st, ast.AugAssign) and isinstance(st.op, ast.Add) and isinstance(st.target, ast.Name):
+            nm = st.target.id
+            if nm not in env or env[nm][0] != "poly":
+                raise TranslationError("`%s +=` before an assignment" % nm)
+            if loopvar is None:
+                return acc_assign(nm, env[nm][1].add(ev.poly(st.value)))
+            if acc is not None and nm != acc:
+                raise TranslationError("a second size accumulator `%s`" % nm)
+            terms.append((nm, ev.poly(st.value)))
+            return
+        if isinstance(st, ast.For) and loopvar is None and isinstance(st.target, ast.Name) and not st.orelse:
+            lst = _var_list(st.iter)
+            env[st.target.id] = ("var", lst)
+            tt = []
+            for x in st.body:
+                size_stmt(x, st.target.id, tt)
+            del env[st.target.id]
+            if len(tt) != 1:
+                raise TranslationError("size loop over %s: exactly one `+=` expected" % lst)
+            nm, term = tt[0]
+            if not term.atoms() <= {"b.n", "b.size"}:
+                raise TranslationError("size term of %s depends on `%s`" % (lst, sorted(term.atoms())))
+            nonlocal_acc(nm)
+            size_lines.append("  let s := L.accum %s (fun b => %s) s" % (lst, term.lean()))
+            return
+        raise TranslationError("unsupported statement in the size count: `%s`" % _u(st))
+
+    def nonlocal_acc(nm):
+        nonlocal acc
+        if acc is None or nm != acc:
+            raise TranslationError("size loop adds to `%s`, which is not the size accumulator" % nm)
+
+    # phase 1: up to `count = self.ensemble_size * ensemble_member_size`
+    count_name = None
+    while k < len(body):
+        st = body[k]
+        k += 1
+        if isinstance(st, ast.Assign) and len(st.targets) == 1 and isinstance(st.targets[0], ast.Name) and acc is not None:
+            try:
+                p = ev.poly(st.value)
+            except TranslationError:
+                p = None
+            if p is not None and "I.E" in p.atoms():
+                if p != _Poly.atom("I.E").mul(_Poly.atom("s")):
+                    raise TranslationError("`%s` is not ensemble_size * ensemble_member_size" % _u(st))
+                count_name = st.targets[0].id
+                break
+        size_stmt(st)
+    if count_name is None:
+        raise TranslationError("`count = self.ensemble_size * ensemble_member_size` not found")
+    env[acc] = ("poly", _Poly.atom("memberSizeGen I"))
+    env[count_name] = ("poly", _Poly.atom("stateCountGen I"))
+    # phase 2: indices = [{} ...]; member loop
+    idx_name = None
+    member_loop = None
+    rest = []
+    for st in body[k:]:
+        if isinstance(st, ast.Expr) and isinstance(st.value, ast.Constant):
+            continue
+        if member_loop is None and isinstance(st, ast.Assign) and isinstance(st.targets[0], ast.Name) \
+                and isinstance(st.value, ast.ListComp):
+            if not (_u(st.value.elt) == "{}" and len(st.value.generators) == 1
+                    and _is_member_range(st.value.generators[0].iter)):
+                raise TranslationError("`indices = [{} for … in range(self.ensemble_size)]` expected")
+            idx_name = st.targets[0].id
+        elif member_loop is None and isinstance(st, ast.For) and _is_member_range(st.iter):
+            member_loop = st
+        elif member_loop is not None:
+            rest.append(st)
+        else:
+            raise TranslationError("unexpected statement before the member loop: `%s`" % _u(st))
+    if idx_name is None or member_loop is None or not isinstance(member_loop.target, ast.Name):
+        raise TranslationError("index table / member loop of discretize_states not found")
+    mname = member_loop.target.id
+    env[mname] = ("poly", _Poly.atom("m"))
+    lines = []
+    off_name = None
+    nloops = 0
+    for st in member_loop.body:
+        if isinstance(st, ast.Expr) and isinstance(st.value, ast.Constant):
+            continue
+        if isinstance(st, ast.Assign) and len(st.targets) == 1 and isinstance(st.targets[0], ast.Name) and off_name is None:
+            off_name = st.targets[0].id
+            lines.append("  let offset := %s" % ev.poly(st.value).lean())
+            env[off_name] = ("poly", _Poly.atom("offset"))
+            continue
+        if isinstance(st, ast.For) and isinstance(st.target, ast.Name) and off_name is not None and not st.orelse:
+            lst = _var_list(st.iter)
+            lv = st.target.id
+            benv = dict(env)
+            benv[lv] = ("var", lst)
+            benv[off_name] = ("poly", _Poly.atom("offset"))
+            slot = _alloc_body(st.body, benv, idx_name, mname, lv)
+            new = benv[off_name][1].without("offset")
+            if new is None or not new.atoms() <= {"b.n", "b.size"}:
+                raise TranslationError("allocation loop over %s: the offset is not advanced by a width of the variable" % lst)
+            nloops += 1
+            start = "offset" if nloops == 1 else "r%d.2" % (nloops - 1)
+            lines.append("  let r%d := L.alloc (fun b offset => %s) (fun b => %s) %s %s"
+                         % (nloops, slot, new.lean(), lst, start))
+            continue
+        raise TranslationError("unsupported statement in the member loop of discretize_states: `%s`" % _u(st))
+    if nloops == 0:
+        raise TranslationError("no allocation loop found")
+    lines.append("  " + " ++ ".join("r%d.1" % (j + 1) for j in range(nloops)))
+    _check_tail(rest, count_name, idx_name)
+    return "\n".join(size_lines + ["  s"]), "\n".join(lines)
+
+
+def _alloc_body(stmts, env, idx_name, mname, lv):
+    """body of one allocation loop; returns the slot term, leaves the new offset in env"""
+    ev = _Nat(env)
+    slot = None
+    for st in stmts:
+        if isinstance(st, ast.Expr) and isinstance(st.value, ast.Constant):
+            continue
+        if isinstance(st, ast.Assert):
+            continue
+        if isinstance(st, ast.If) and _is_integrate_states(st.test):
+            s2 = _alloc_body(st.orelse, env, idx_name, mname, lv)
+            if s2 is not None:
+                if slot is not None:
+                    raise TranslationError("the variable's index is assigned twice")
+                slot = s2
+            continue
+        if isinstance(st, ast.Assign) and len(st.targets) == 1:
+            tg = st.targets[0]
+            if isinstance(tg, ast.Name):
+                env[tg.id] = ev.val(st.value)
+                continue
+            if _u(tg).replace(" ", "") == "%s[%s][%s]" % (idx_name, mname, lv):
+                if slot is not None:
+                    raise TranslationError("the variable's index is assigned twice")
+                slot = ev.slot(st.value)
+                continue
+        if isinstance(st, ast.AugAssign) and isinstance(st.op, ast.Add) and isinstance(st.target, ast.Name) \
+                and env.get(st.target.id, ("",))[0] == "poly":
+            env[st.target.id] = ("poly", env[st.target.id][1].add(ev.poly(st.value)))
+            continue
+        raise TranslationError("unsupported statement in an allocation loop: `%s`" % _u(st))
+    return slot
+
+
+def _check_tail(rest, count_name, idx_name):
+    """`lbx, ubx = self._collint_get_lbx_ubx(count, indices)` … `return count, …, indices`"""
+    seen = False
+    for st in rest:
+        if isinstance(st, ast.Assign) and _is_self_call(st.value, "_collint_get_lbx_ubx"):
+            if [_u(a) for a in st.value.args] != [count_name, idx_name]:
+                raise TranslationError("_collint_get_lbx_ubx is not called with (count, indices)")
+            seen = True
+        elif isinstance(st, ast.Return):
+            elts = st.value.elts if isinstance(st.value, ast.Tuple) else []
+            if len(elts) != 6 or _u(elts[0]) != count_name or _u(elts[5]) != idx_name:
+                raise TranslationError("`return count, discrete, lbx, ubx, x0, indices` expected")
+        elif isinstance(st, ast.Assign) and (_is_self_call(st.value, "_collint_get_discrete")
+                                             or _is_self_call(st.value, "_collint_get_x0")):
+            pass
+        elif isinstance(st, ast.Expr) and isinstance(st.value, ast.Constant):
+            pass
+        else:
+            raise TranslationError("unexpected statement after the allocation: `%s`" % _u(st))
+    if not seen:
+        raise TranslationError("call of _collint_get_lbx_ubx not found")
+
+
+def _tr_discretize_control(fn):
+    a = [x.arg for x in fn.args.args]
+    if len(a) != 5:
+        raise TranslationError("discretize_control: five parameters expected")
+    _, pvar, _pm, ptimes, poff = a
+    body = [s for s in fn.body if not (isinstance(s, ast.Expr) and isinstance(s.value, ast.Constant))]
+    if len(body) != 1 or not isinstance(body[0], ast.Try):
+        raise TranslationError("discretize_control: `try: return cache[variable] except KeyError:` expected")
+    tr = body[0]
+    if len(tr.body) != 1 or not isinstance(tr.body[0], ast.Return) or tr.orelse or tr.finalbody \
+            or len(tr.handlers) != 1 or _u(tr.handlers[0].type) != "KeyError":
+        raise TranslationError("discretize_control: `try: return cache[variable] except KeyError:` expected")
+    r = tr.body[0].value
+    if not (isinstance(r, ast.Subscript) and _attr_self(r.value, ("__discretize_control_cache",)) and _u(r.slice) == pvar):
+        raise TranslationError("discretize_control: the cached entry of `variable` is not what is returned")
+    env = {poff: ("poly", _Poly.atom("offset")), ptimes: ("ntimes_arg",)}
+    ev = _Nat(env)
+    stored = ret = None
+    for st in tr.handlers[0].body:
+        if isinstance(st, ast.Assign) and len(st.targets) == 1 and isinstance(st.targets[0], ast.Name):
+            env[st.targets[0].id] = ("slot", ev.slot(st.value))
+        elif isinstance(st, ast.Assign) and len(st.targets) == 1 and isinstance(st.targets[0], ast.Subscript) \
+                and _attr_self(st.targets[0].value, ("__discretize_control_cache",)) and _u(st.targets[0].slice) == pvar \
+                and stored is None:
+            stored = ev.slot(st.value)
+        elif isinstance(st, ast.Return) and ret is None:
+            ret = ev.slot(st.value)
+        else:
+            raise TranslationError("discretize_control: unsupported statement `%s`" % _u(st))
+    if stored is None or ret is None:
+        raise TranslationError("discretize_control: the new slice is not cached / not returned")
+    return ("  match cache.lookup var with\n  | some s => (s, cache)\n  | none => (%s, (var, %s) :: cache)" % (ret, stored))
+
+
+def _tr_discretize_controls(fn):
+    body = [s for s in fn.body if not (isinstance(s, ast.Expr) and isinstance(s.value, ast.Constant))]
+    idx_name = count_name = None
+    loop = None
+    rest = []
+    cache_init = False
+    for st in body:
+        if loop is not None:
+            rest.append(st)
+        elif isinstance(st, ast.Assign) and _attr_self(st.targets[0], ("__discretize_control_cache",)) and _u(st.value) == "{}":
+            cache_init = True
+        elif isinstance(st, ast.Assign) and isinstance(st.targets[0], ast.Name) and isinstance(st.value, ast.ListComp):
+            if not (_u(st.value.elt) == "{}" and len(st.value.generators) == 1
+                    and _is_member_range(st.value.generators[0].iter)):
+                raise TranslationError("`indices = [{} for … in range(self.ensemble_size)]` expected")
+            idx_name = st.targets[0].id
+        elif isinstance(st, ast.Assign) and isinstance(st.targets[0], ast.Name) and _u(st.value) == "0":
+            count_name = st.targets[0].id
+        elif isinstance(st, ast.For):
+            loop = st
+        else:
+            raise TranslationError("discretize_controls: unexpected statement `%s`" % _u(st))
+    if not cache_init or idx_name is None or count_name is None or loop is None:
+        raise TranslationError("discretize_controls: cache reset / index table / `count = 0` / loop not found")
+    if _var_list(loop.iter) != "I.controls" or not isinstance(loop.target, ast.Name):
+        raise TranslationError("discretize_controls: the outer loop is not over self.controls")
+    lv = loop.target.id
+    env = {lv: ("var", "I.controls"), count_name: ("count",)}
+    ev = _Nat(env)
+    inner = None
+    for st in loop.body:
+        if isinstance(st, ast.Assign) and len(st.targets) == 1 and isinstance(st.targets[0], ast.Name) and inner is None:
+            env[st.targets[0].id] = ev.val(st.value)
+        elif isinstance(st, ast.For) and inner is None and _is_member_range(st.iter) and isinstance(st.target, ast.Name):
+            inner = st
+        else:
+            raise TranslationError("discretize_controls: unexpected statement in the loop over controls `%s`" % _u(st))
+    if inner is None:
+        raise TranslationError("discretize_controls: loop over the ensemble members not found")
+    mname = inner.target.id
+    out = None
+    new_count = None
+    for st in inner.body:
+        if isinstance(st, ast.Expr) and isinstance(st.value, ast.Constant):
+            continue
+        if isinstance(st, ast.Assign) and len(st.targets) == 1:
+            tg, v = st.targets[0], st.value
+            if isinstance(tg, ast.Name) and _is_self_call(v, "discretize_control"):
+                if len(v.args) != 4 or v.keywords or _u(v.args[0]) != lv or _u(v.args[1]) != mname \
+                        or env.get(_u(v.args[2])) != ("times", "I.controls") or _u(v.args[3]) != count_name:
+                    raise TranslationError("discretize_control is not called with (variable, ensemble_member, times, count)")
+                if any(x == ("slot", "r.1") for x in env.values()):
+                    raise TranslationError("discretize_control is called twice")
+                env[tg.id] = ("slot", "r.1")
+                continue
+            if _u(tg).replace(" ", "") == "%s[%s][%s]" % (idx_name, mname, lv):
+                if out is not None or ev.val(v) != ("slot", "r.1"):
+                    raise TranslationError("indices[ensemble_member][variable] is not the value of discretize_control")
+                out = "r.1"
+                continue
+            if isinstance(tg, ast.Name) and tg.id == count_name:
+                if not (isinstance(v, ast.Call) and _u(v.func) == "max" and len(v.args) == 2):
+                    raise TranslationError("`count = max(count, stop)` expected")
+                args = sorted(_count_term(ev, x) for x in v.args)
+                if new_count is not None:
+                    raise TranslationError("count is assigned twice")
+                new_count = "max %s %s" % (args[1], args[0]) if args[0].startswith("r.1") else "max %s %s" % tuple(args)
+                continue
+            if isinstance(tg, ast.Name):
+                env[tg.id] = ("stop", _count_term(ev, v))
+                continue
+        raise TranslationError("discretize_controls: unsupported statement in the member loop `%s`" % _u(st))
+    if out is None or new_count is None:
+        raise TranslationError("discretize_controls: index assignment / count update not found")
+    _check_tail(rest, count_name, idx_name)
+    return ("  let r := discretizeControlGen st.cache var b.n st.count\n  (%s, { cache := r.2, count := %s })" % (out, new_count))
+
+
+def _count_term(ev, node):
+    """`count`, `X.stop`, `X.stop if isinstance(X, slice) else …` as a Lean Nat term"""
+    if isinstance(node, ast.Name):
+        v = ev.env.get(node.id)
+        if v == ("count",):
+            return "st.count"
+        if v is not None and v[0] == "stop":
+            return v[1]
+    if isinstance(node, ast.Attribute) and node.attr == "stop" and ev.val(node.value) == ("slot", "r.1"):
+        return "r.1.stop"
+    if isinstance(node, ast.IfExp):
+        t = node.test
+        if isinstance(t, ast.Call) and _u(t.func) == "isinstance" and len(t.args) == 2 and _u(t.args[1]) == "slice" \
+                and ev.val(t.args[0]) == ("slot", "r.1"):
+            return _count_term(ev, node.body)
+    raise TranslationError("unsupported count expression `%s`" % _u(node))
+
+
+def _tr_merge(tr):
+    """the merge of the index tables in transcribe(): (Lean arms of shiftGen)"""
+    names = {}
+    for st in tr.body:
+        if isinstance(st, ast.Assign) and isinstance(st.targets[0], ast.Tuple) and len(st.targets[0].elts) == 6:
+            for meth in ("discretize_controls", "discretize_states"):
+                if _is_self_call(st.value, meth):
+                    names[meth] = [_u(e) for e in st.targets[0].elts]
+    if set(names) != {"discretize_controls", "discretize_states"}:
+        raise TranslationError("calls of discretize_controls / discretize_states not found in transcribe()")
+    csize, cind = names["discretize_controls"][0], names["discretize_controls"][5]
+    sind = names["discretize_states"][5]
+    loop = None
+    for k, st in enumerate(tr.body):
+        if isinstance(st, ast.Assign) and _attr_self(st.targets[0], ("__indices",)):
+            if _u(st.value) != cind:
+                raise TranslationError("self.__indices is not initialised with the control indices")
+            loop = tr.body[k + 1]
+            break
+    if loop is None or not (isinstance(loop, ast.For) and _is_member_range(loop.iter) and len(loop.body) == 1
+                            and isinstance(loop.body[0], ast.For)):
+        raise TranslationError("merge loop of the index tables not found")
+    mname = _u(loop.target)
+    inner = loop.body[0]
+    if _u(inner.iter).replace(" ", "") != "%s[%s].items()" % (sind, mname) or not isinstance(inner.target, ast.Tuple) \
+            or len(inner.target.elts) != 2:
+        raise TranslationError("merge loop: `for key, value in indices_state[ensemble_member].items()` expected")
+    kname, vname = _u(inner.target.elts[0]), _u(inner.target.elts[1])
+    arms = {}
+    for case in ("slice", "int"):
+        env = {csize: ("poly", _Poly.atom("controlSize"))}
+        ev = _Nat(env)
+        cur = {"v": ("slotval", case)}
+
+        def val(node):
+            if isinstance(node, ast.Attribute) and isinstance(node.value, ast.Name) and node.value.id == vname \
+                    and cur["v"] == ("slotval", "slice") and node.attr in ("start", "stop"):
+                return _Poly.atom("s" if node.attr == "start" else "e")
+            if isinstance(node, ast.Name) and node.id == vname and cur["v"] == ("slotval", "int"):
+                return _Poly.atom("i")
+            if isinstance(node, ast.BinOp) and isinstance(node.op, ast.Add):
+                return val(node.left).add(val(node.right))
+            return ev.poly(node)
+
+        def run(stmts):
+            for st in stmts:
+                if isinstance(st, ast.If) and _u(st.test).replace(" ", "") == "isinstance(%s,slice)" % vname:
+                    if cur["v"][0] != "slotval":
+                        raise TranslationError("merge loop: isinstance test after the value was rebuilt")
+                    run(st.body if case == "slice" else st.orelse)
+                elif isinstance(st, ast.Assign) and _u(st.targets[0]) == vname:
+                    v = st.value
+                    if isinstance(v, ast.Call) and _u(v.func) == "slice" and len(v.args) == 2:
+                        cur["v"] = ("done", ".slice (%s) (%s)" % (val(v.args[0]).lean(), val(v.args[1]).lean()))
+                    else:
+                        raise TranslationError("merge loop: unsupported value `%s`" % _u(v))
+                elif isinstance(st, ast.AugAssign) and isinstance(st.op, ast.Add) and _u(st.target) == vname \
+                        and cur["v"] == ("slotval", "int"):
+                    cur["v"] = ("done", ".int (%s)" % _Poly.atom("i").add(val(st.value)).lean())
+                elif isinstance(st, ast.Assign) and _u(st.targets[0]).replace(" ", "") == "self.__indices[%s][%s]" % (mname, kname):
+                    if _u(st.value) != vname or "w" in cur:
+                        raise TranslationError("merge loop: self.__indices[m][key] is not assigned the shifted value")
+                    cur["w"] = cur["v"]
+                else:
+                    raise TranslationError("merge loop: unsupported statement `%s`" % _u(st))
+
+        run(inner.body)
+        if "w" not in cur:
+            raise TranslationError("merge loop: self.__indices[m][key] is never assigned")
+        if cur["w"][0] != "done":
+            cur["w"] = ("done", ".slice (s) (e)" if case == "slice" else ".int (i)")
+        arms[case] = cur["w"][1]
+    return "  | .slice s e => %s\n  | .int i => %s" % (arms["slice"], arms["int"])
+
+
+# -- history block ---------------------------------------------------------------------------------------
+
+def _v(name):
+    return "v_" + name
+
+
+class _Hist:
+    """symbolic execution of one iteration of the history-pin loop / the initial-derivative loop"""
+
+    def __init__(self, kind, lv, iv, hist_name, mname):
+        self.kind = kind            # "pin" | "der"
+        self.lv, self.iv, self.hist_name, self.mname = lv, iv, hist_name, mname
+        self.env = {}               # python name -> tagged value
+        self.H = None               # python name bound to history[variable]
+
+    # values: ("x", leanterm) float ; ("method",) ; ("idx",) ; ("deridx",) ; ("dername",) ; ("nomvar",) ; ("nomder",)
+    def is_H_attr(self, node, attr):
+        return isinstance(node, ast.Attribute) and node.attr == attr and isinstance(node.value, ast.Name) \
+            and node.value.id == self.H
+
+    def neg_index(self, node, attr):
+        """H.attr[-k] -> k"""
+        if isinstance(node, ast.Subscript) and self.is_H_attr(node.value, attr):
+            s = node.slice
+            if isinstance(s, ast.UnaryOp) and isinstance(s.op, ast.USub) and isinstance(s.operand, ast.Constant) \
+                    and s.operand.value in (1, 2):
+                return s.operand.value
+        return None
+
+    def nan(self, node):
+        if not _is_np(node, "nan"):
+            raise TranslationError("fill value `%s` is not np.nan" % _u(node))
+        return "XVal.nan"
+
+    def expr(self, node):
+        if isinstance(node, ast.Name):
+            if node.id == "t0":
+                return ("t0",)
+            if node.id not in self.env:
+                raise TranslationError("unknown name `%s`" % node.id)
+            return self.env[node.id]
+        if _is_self_call(node, "interpolation_method") and len(node.args) == 1 and _u(node.args[0]) == self.lv:
+            return ("method",)
+        if _is_self_call(node, "variable_nominal") and len(node.args) == 1:
+            a = node.args[0]
+            if _u(a) == self.lv:
+                return ("nomvar",)
+            if isinstance(a, ast.Name) and self.env.get(a.id) == ("dername",):
+                return ("nomder",)
+            raise TranslationError("nominal of `%s`" % _u(a))
+        if _is_self_call(node, "interpolate"):
+            if len(node.args) != 6 or node.keywords:
+                raise TranslationError("self.interpolate: expected 6 positional arguments")
+            a = node.args
+            if not (_u(a[0]) == "t0" and self.is_H_attr(a[1], "times") and self.is_H_attr(a[2], "values")
+                    and self.expr(a[5]) == ("method",)):
+                raise TranslationError("self.interpolate: arguments are not (t0, H.times, H.values, fl, fr, method)")
+            return ("interp", "L.interpolate b h %s %s t0" % (self.nan(a[3]), self.nan(a[4])))
+        k = self.neg_index(node, "values")
+        if k:
+            return ("x", "(L.valAt%d h)" % k)
+        k = self.neg_index(node, "times")
+        if k:
+            return ("time", k)
+        if isinstance(node, ast.Subscript) and _attr_self(node.value, ("__initial_derivative_names",)) \
+                and self.iv is not None and _u(node.slice) == self.iv:
+            return ("dername",)
+        if isinstance(node, ast.Subscript) and _u(node).replace(" ", "") == \
+                "self.__indices_as_lists[%s][%s][0]" % (self.mname, self.lv):
+            return ("idx",)
+        if isinstance(node, ast.Subscript) and isinstance(node.value, ast.Subscript) \
+                and _attr_self(node.value.value, ("__indices",)) and _u(node.value.slice) == self.mname \
+                and isinstance(node.slice, ast.Name) and self.env.get(node.slice.id) == ("dername",):
+            return ("deridx",)
+        if isinstance(node, ast.BinOp) and isinstance(node.op, ast.Div):
+            lft, rgt = node.left, node.right
+            if isinstance(lft, ast.BinOp) and isinstance(lft.op, ast.Sub) and isinstance(rgt, ast.BinOp) \
+                    and isinstance(rgt.op, ast.Sub):
+                a = self.expr(lft.left)
+                if a[0] == "x" and self.neg_index(lft.right, "values") == 2 and _u(rgt.left) == "t0" \
+                        and self.neg_index(rgt.right, "times") == 2:
+                    return ("x", "(L.backDiff %s (L.valAt2 h) (L.timeAt2 h) t0)" % a[1])
+            raise TranslationError("unsupported quotient `%s`" % _u(node))
+        raise TranslationError("unsupported expression `%s`" % _u(node))
+
+    def cond(self, node):
+        if isinstance(node, ast.UnaryOp) and isinstance(node.op, ast.Not):
+            return "¬ (%s)" % self.cond(node.operand)
+        if isinstance(node, ast.BoolOp) and isinstance(node.op, ast.Or):
+            return " ∨ ".join(self.cond(x) for x in node.values)
+        if isinstance(node, ast.Call) and _is_np(node.func, "isnan") and len(node.args) == 1:
+            v = self.expr(node.args[0])
+            if v[0] != "x":
+                raise TranslationError("np.isnan of `%s`" % _u(node.args[0]))
+            return "L.isnan %s = true" % v[1]
+        if isinstance(node, ast.Compare) and len(node.ops) == 1:
+            lft, rgt = node.left, node.comparators[0]
+            if isinstance(node.ops[0], ast.LtE) and isinstance(lft, ast.Call) and _u(lft.func) == "len" \
+                    and len(lft.args) == 1 and self.is_H_attr(lft.args[0], "times") and isinstance(rgt, ast.Constant) \
+                    and isinstance(rgt.value, int):
+                return "h.times.length ≤ %d" % rgt.value
+            if isinstance(node.ops[0], ast.Eq):
+                for x, y in ((lft, rgt), (rgt, lft)):
+                    if self.neg_index(x, "times") == 1 and _u(y) == "t0":
+                        return "L.timeAt1 h = some t0"
+        raise TranslationError("unsupported condition `%s`" % _u(node))
+
+    def is_bound_write(self, st):
+        return isinstance(st, ast.Assign) and any(
+            isinstance(t, ast.Subscript) and isinstance(t.value, ast.Name) and t.value.id in ("lbx", "ubx")
+            for t in st.targets)
+
+    def write(self, st):
+        """`lbx[idx] = ubx[idx] = val` -> ({array: index tag}, value term)"""
+        tg = {}
+        for t in st.targets:
+            if not (isinstance(t, ast.Subscript) and isinstance(t.value, ast.Name) and t.value.id in ("lbx", "ubx")):
+                raise TranslationError("unsupported write `%s`" % _u(st))
+            tg[t.value.id] = self.expr(t.slice)
+        v = self.expr(st.value)
+        if v[0] != "x":
+            raise TranslationError("the value written is not a number: `%s`" % _u(st.value))
+        return tg, v[1]
+
+    def block(self, stmts, ind):
+        """returns Lean text (lines) for the statements; the result of the block is the last line"""
+        pad = "  " * ind
+        if not stmts:
+            return [pad + self.done()]
+        st, rest = stmts[0], stmts[1:]
+        if isinstance(st, ast.Pass) or _is_logging(st) or (isinstance(st, ast.Expr) and isinstance(st.value, ast.Constant)):
+            return self.block(rest, ind)
+        if isinstance(st, ast.If) and not st.orelse and all(_is_logging(x) for x in st.body):
+            return self.block(rest, ind)          # `if …: logger.warning(...)`
+        if isinstance(st, ast.Assign) and len(st.targets) == 1 and isinstance(st.targets[0], ast.Name):
+            nm = st.targets[0].id
+            v = self.expr(st.value)
+            if v[0] == "interp":
+                fail = "none" if self.kind == "pin" else "DerPin.raise"
+                self.env[nm] = ("x", _v(nm))
+                return [pad + "match %s with" % v[1], pad + "| none => %s" % fail, pad + "| some %s =>" % _v(nm)] \
+                    + self.block(rest, ind + 1)
+            if v[0] == "x":
+                self.env[nm] = ("x", _v(nm))
+                return [pad + "let %s := %s" % (_v(nm), v[1].strip("()") if v[1].startswith("(L.") else v[1])] \
+                    + self.block(rest, ind)
+            self.env[nm] = v
+            return self.block(rest, ind)
+        if isinstance(st, ast.AugAssign) and isinstance(st.op, ast.Div) and isinstance(st.target, ast.Name):
+            nm = st.target.id
+            cur = self.env.get(nm)
+            d = self.expr(st.value)
+            if cur is None or cur[0] != "x":
+                raise TranslationError("`%s /=` of something that is not a number" % nm)
+            if d == ("nomvar",) and self.kind == "pin":
+                line = "let %s := xdivPos %s (L.nominal b)" % (_v(nm), cur[1])
+            elif d == ("nomder",) and self.kind == "der":
+                line = "let %s := L.divNom %s nomDer" % (_v(nm), cur[1])
+            else:
+                raise TranslationError("division by `%s`" % _u(st.value))
+            self.env[nm] = ("x", _v(nm))
+            return [pad + line] + self.block(rest, ind)
+        if self.is_bound_write(st):
+            if rest:
+                raise TranslationError("statements after the pin write: `%s`" % _u(rest[0]))
+            tg, val = self.write(st)
+            if self.kind == "pin":
+                if any(v != ("idx",) for v in tg.values()):
+                    raise TranslationError("the history pin is not written at the variable's first entry")
+                return [pad + "some (%s, %s)" % ("lbx.set idx %s" % val if "lbx" in tg else "lbx",
+                                                 "ubx.set idx %s" % val if "ubx" in tg else "ubx")]
+            if set(tg) != {"lbx", "ubx"} or any(v != ("deridx",) for v in tg.values()):
+                raise TranslationError("the initial-derivative pin does not write lbx and ubx at the derivative's entry")
+            return [pad + "L.pinOf %s" % val]
+        if isinstance(st, ast.If):
+            if self.kind == "pin":
+                if st.orelse or rest:
+                    raise TranslationError("history pin: only a final `if` without else is supported")
+                return [pad + "if %s then" % self.cond(st.test)] + self.block(st.body, ind + 1) \
+                    + [pad + "else " + self.done()]
+            # der: `if c: continue`, `if c: A else: B`
+            if len(st.body) == 1 and isinstance(st.body[0], ast.Continue) and not st.orelse:
+                return [pad + "if %s then DerPin.free" % self.cond(st.test), pad + "else"] + self.block(rest, ind + 1)
+            if st.orelse and not rest:
+                c = self.cond(st.test)
+                return [pad + "if %s then" % c] + self.branch(st.body, ind + 1) + [pad + "else"] \
+                    + self.branch(st.orelse, ind + 1)
+        if isinstance(st, ast.Assert) and self.kind == "der":
+            return [pad + "if ¬ (%s) then DerPin.raise" % self.cond(st.test), pad + "else"] + self.block(rest, ind + 1)
+        raise TranslationError("unsupported statement in the history block: `%s`" % _u(st))
+
+    def branch(self, stmts, ind):
+        """a branch of the der loop: the symbolic-row branch is recognised by its single append"""
+        appends = [s for s in stmts if isinstance(s, ast.Expr) and isinstance(s.value, ast.Call)
+                   and isinstance(s.value.func, ast.Attribute) and s.value.func.attr == "append"]
+        if appends:
+            if len(appends) != 1 or any(self.is_bound_write(s) for s in stmts) \
+                    or _u(appends[0].value.func.value) != "initial_derivative_constraints":
+                raise TranslationError("symbolic initial-derivative branch: one appended row and no bound write expected")
+            return ["  " * ind + "DerPin.symbolic"]
+        return self.block(stmts, ind)
+
+    def done(self):
+        return "some (lbx, ubx)" if self.kind == "pin" else "DerPin.free"
+
+    def run(self, loop):
+        body = [s for s in loop.body if not (isinstance(s, ast.Expr) and isinstance(s.value, ast.Constant))]
+        if len(body) != 1 or not isinstance(body[0], ast.Try):
+            raise TranslationError("history loop: `try: H = history[variable] except KeyError: pass else:` expected")
+        tr = body[0]
+        if len(tr.body) != 1 or len(tr.handlers) != 1 or _u(tr.handlers[0].type) != "KeyError" or tr.finalbody \
+                or not all(isinstance(x, ast.Pass) for x in tr.handlers[0].body):
+            raise TranslationError("history loop: `try: H = history[variable] except KeyError: pass else:` expected")
+        first = tr.body[0]
+        if not (isinstance(first, ast.Assign) and isinstance(first.targets[0], ast.Name)
+                and _u(first.value).replace(" ", "") == "%s[%s]" % (self.hist_name, self.lv)):
+            raise TranslationError("history loop: `H = history[variable]` expected")
+        self.H = first.targets[0].id
+        lines = self.block(list(tr.orelse), 2)
+        return "\n".join(["  match h with", "  | none => " + self.done(), "  | some h =>"] + lines)
+
+
+def _tr_history(tr):
+    """locate the history block of transcribe(): (pinVars term, pin body, der body)"""
+    found = []
+    for node in ast.walk(tr):
+        stmts = getattr(node, "body", None)
+        if not isinstance(stmts, list):
+            continue
+        for k, st in enumerate(stmts):
+            if isinstance(st, ast.Assign) and isinstance(st.targets[0], ast.Name) and _is_self_call(st.value, "history") \
+                    and k + 1 < len(stmts) and isinstance(stmts[k + 1], ast.For) \
+                    and _u(stmts[k + 1].iter.func if isinstance(stmts[k + 1].iter, ast.Call) else stmts[k + 1].iter) \
+                    == "itertools.chain":
+                found.append((stmts, k))
+    if len(found) != 1:
+        raise TranslationError("history-pin block of transcribe() not found (or ambiguous)")
+    stmts, k = found[0]
+    hcall = stmts[k].value
+    if len(hcall.args) != 1 or not isinstance(hcall.args[0], ast.Name):
+        raise TranslationError("self.history(ensemble_member) expected")
+    mname = hcall.args[0].id
+    hist_name = stmts[k].targets[0].id
+    pin_loop = stmts[k + 1]
+    pinvars = _var_list(pin_loop.iter)
+    if not isinstance(pin_loop.target, ast.Name):
+        raise TranslationError("history-pin loop variable")
+    pin = _Hist("pin", pin_loop.target.id, None, hist_name, mname).run(pin_loop)
+    der_loop = None
+    for st in stmts[k + 2:]:
+        if isinstance(st, ast.For):
+            der_loop = st
+            break
+        if not (isinstance(st, ast.Assign) and _u(st.value) == "[]"):
+            raise TranslationError("unexpected statement between the two history loops: `%s`" % _u(st))
+    if der_loop is None or not (isinstance(der_loop.iter, ast.Call) and _u(der_loop.iter.func) == "enumerate"
+                                and len(der_loop.iter.args) == 1 and _var_list(der_loop.iter.args[0]) == "I.states"
+                                and isinstance(der_loop.target, ast.Tuple) and len(der_loop.target.elts) == 2):
+        raise TranslationError("initial-derivative loop `for i, variable in enumerate(self.differentiated_states)` not found")
+    iv, lv = _u(der_loop.target.elts[0]), _u(der_loop.target.elts[1])
+    der = _Hist("der", lv, iv, hist_name, mname).run(der_loop)
+    return pinvars, pin, der
+
+
+# -- nominals of the initial derivatives (start of transcribe()) ---------------------------------------------
+
+class _DerNom:
+    """path-expanding symbolic execution of the loop body that fills self.__initial_derivative_nominals:
+    names are substituted, every `if` / the try splits the rest of the body (a decision tree of writes)"""
+
+    def __init__(self, lv, dername, h0name):
+        self.lv, self.dername, self.h0name = lv, dername, h0name
+
+    def expr(self, node, env):
+        if isinstance(node, ast.Constant) and isinstance(node.value, int) and not isinstance(node.value, bool):
+            return ("const", node.value)
+        if isinstance(node, ast.Name):
+            if node.id not in env:
+                raise TranslationError("unknown name `%s`" % node.id)
+            return env[node.id]
+        if _is_self_call(node, "times") and len(node.args) == 1 and _u(node.args[0]) == self.lv:
+            return ("tlist", "b.times")
+        if _is_self_call(node, "variable_nominal") and len(node.args) == 1 and _u(node.args[0]) == self.lv:
+            return ("rat", "L.nominal b")
+        if isinstance(node, ast.Attribute) and node.attr in ("times", "values") and isinstance(node.value, ast.Name) \
+                and env.get(node.value.id) == ("hist",):
+            return ("tlist", "h.times") if node.attr == "times" else ("vlist", "h.vals")
+        if isinstance(node, ast.Subscript):
+            v = self.expr(node.value, env)
+            if v[0] == "tlist":
+                s = node.slice
+                if isinstance(s, ast.Constant) and s.value in (0, 1):
+                    return ("opt", "%s[%d]?" % (v[1], s.value))
+                if isinstance(s, ast.UnaryOp) and isinstance(s.op, ast.USub) and isinstance(s.operand, ast.Constant) \
+                        and s.operand.value in (1, 2):
+                    return ("opt", "L.last%d %s" % (s.operand.value, v[1]))
+            raise TranslationError("unsupported subscript `%s`" % _u(node))
+        if isinstance(node, ast.Call) and _u(node.func) == "len" and len(node.args) == 1:
+            v = self.expr(node.args[0], env)
+            if v[0] in ("tlist", "vlist"):
+                return ("nat", "%s.length" % v[1])
+            raise TranslationError("len of `%s`" % _u(node.args[0]))
+        if isinstance(node, ast.BinOp) and isinstance(node.op, (ast.Sub, ast.Div)):
+            a, b = self.rat(node.left, env), self.rat(node.right, env)
+            return ("rat", "(%s %s %s)" % (a, "-" if isinstance(node.op, ast.Sub) else "/", b))
+        raise TranslationError("unsupported expression `%s`" % _u(node))
+
+    def rat(self, node, env):
+        v = self.expr(node, env)
+        if v[0] == "rat":
+            return v[1]
+        if v[0] == "const":
+            return "(%d : Rat)" % v[1]
+        if v[0] == "opt":
+            return "(%s).getD 0" % v[1]
+        raise TranslationError("`%s` is not a number" % _u(node))
+
+    def cond(self, node, env):
+        if isinstance(node, ast.BoolOp) and isinstance(node.op, ast.Or):
+            return " ∨ ".join(self.cond(x, env) for x in node.values)
+        if isinstance(node, ast.Compare) and len(node.ops) == 1:
+            a, b = self.expr(node.left, env), self.expr(node.comparators[0], env)
+            op = node.ops[0]
+            if isinstance(op, ast.Eq) and a[0] == "opt" and b[0] == "opt":
+                return "%s = %s" % (a[1], b[1])
+            if isinstance(op, (ast.Eq, ast.Gt)) and a[0] == "nat" and b[0] == "const" and b[1] >= 0:
+                return "%s %s %d" % (a[1], "=" if isinstance(op, ast.Eq) else ">", b[1])
+            if isinstance(op, ast.Gt) and a[0] in ("rat", "const") and b == ("const", 0):
+                return "%s > 0" % self.rat(node.left, env)
+        raise TranslationError("unsupported condition `%s`" % _u(node))
+
+    def block(self, stmts, env, ind):
+        pad = "  " * ind
+        if not stmts:
+            raise TranslationError("a path through the nominal loop writes no nominal")
+        st, rest = stmts[0], stmts[1:]
+        if isinstance(st, ast.Expr) and isinstance(st.value, ast.Constant):
+            return self.block(rest, env, ind)
+        if isinstance(st, ast.Assign) and len(st.targets) == 1 and isinstance(st.targets[0], ast.Name):
+            env = dict(env)
+            env[st.targets[0].id] = self.expr(st.value, env)
+            return self.block(rest, env, ind)
+        if isinstance(st, ast.Assign) and len(st.targets) == 1 and isinstance(st.targets[0], ast.Subscript) \
+                and _attr_self(st.targets[0].value, ("__initial_derivative_nominals",)) \
+                and _u(st.targets[0].slice) == self.dername:
+            if rest:
+                raise TranslationError("statements after the nominal is stored: `%s`" % _u(rest[0]))
+            return [pad + "some (%s)" % self.rat(st.value, env)]
+        if isinstance(st, ast.If):
+            return [pad + "if %s then" % self.cond(st.test, env)] + self.block(list(st.body) + rest, env, ind + 1) \
+                + [pad + "else"] + self.block(list(st.orelse) + rest, env, ind + 1)
+        if isinstance(st, ast.Assert):
+            return [pad + "if ¬ (%s) then none" % self.cond(st.test, env), pad + "else"] + self.block(rest, env, ind + 1)
+        if isinstance(st, ast.Try):
+            if len(st.handlers) != 1 or _u(st.handlers[0].type) != "KeyError" or st.finalbody or st.orelse or not st.body:
+                raise TranslationError("nominal loop: `try: h = history_0[variable] … except KeyError:` expected")
+            first = st.body[0]
+            if not (isinstance(first, ast.Assign) and isinstance(first.targets[0], ast.Name)
+                    and _u(first.value).replace(" ", "") == "%s[%s]" % (self.h0name, self.lv)):
+                raise TranslationError("nominal loop: the try block does not start with `h = history_0[variable]`")
+            henv = dict(env)
+            henv[first.targets[0].id] = ("hist",)
+            return [pad + "match h0 with", pad + "| none =>"] + self.block(list(st.handlers[0].body) + rest, env, ind + 1) \
+                + [pad + "| some h =>"] + self.block(list(st.body[1:]) + rest, henv, ind + 1)
+        raise TranslationError("unsupported statement in the nominal loop: `%s`" % _u(st))
+
+
+def _tr_der_nominals(tr):
+    for k, st in enumerate(tr.body):
+        if isinstance(st, ast.Assign) and _attr_self(st.targets[0], ("__initial_derivative_nominals",)) and _u(st.value) == "{}":
+            h0, loop = tr.body[k + 1], tr.body[k + 2]
+            if not (isinstance(h0, ast.Assign) and isinstance(h0.targets[0], ast.Name) and _is_self_call(h0.value, "history")
+                    and [_u(a) for a in h0.value.args] == ["0"]):
+                raise TranslationError("`history_0 = self.history(0)` expected after the nominal dictionary is reset")
+            if not (isinstance(loop, ast.For) and isinstance(loop.iter, ast.Call) and _u(loop.iter.func) == "zip"
+                    and len(loop.iter.args) == 2 and _var_list(loop.iter.args[0]) == "I.states"
+                    and _var_list(loop.iter.args[1]) == "(L.derBlocks I)" and isinstance(loop.target, ast.Tuple)
+                    and len(loop.target.elts) == 2):
+                raise TranslationError("nominal loop `for variable, initial_der_name in zip(states, names)` not found")
+            lv, dn = _u(loop.target.elts[0]), _u(loop.target.elts[1])
+            return "\n".join(_DerNom(lv, dn, h0.targets[0].id).block(list(loop.body), {}, 1))
+    raise TranslationError("reset of self.__initial_derivative_nominals not found in transcribe()")
+
+
+GEN2 = """import RtcVerif.Model.C05Layout
+import RtcVerif.Proofs.C05Layout
+/-!
+GENERATED on every run of the C05 check by harness/translate_c05.py from `discretize_states`,
+`discretize_control`, `discretize_controls` and two fragments of `transcribe()` (the merge of the index
+tables; the history-pin and initial-derivative loops) in
+/repo/src/rtctools/optimization/collocated_integrated_optimization_problem.py (the construct table is in
+the translator).  Do not edit.  The `…_eq_model` theorems tie the source, read this way, to the
+reference definitions `RtcVerif.C05.L`; the `…_is_…` theorems (through `Proofs/C05Layout.lean`) to the
+model functions `stateIndex`, `ctrlIndex`, `pinIndex`, `derIndex`, `applyPins`, `derPin` of the C05 theorems.
+-/
+set_option linter.unusedVariables false
+namespace RtcVerif.Gen.LayoutPins
+open RtcVerif RtcVerif.C05
+
+/-- `ensemble_member_size` of `discretize_states` -/
+def memberSizeGen (I : Inst) : Nat :=
+%(size)s
+
+/-- `count` of `discretize_states` -/
+def stateCountGen (I : Inst) : Nat := I.E * memberSizeGen I
+
+/-- `indices[m]` of `discretize_states`, in insertion order -/
+def stateSlotsGen (I : Inst) (m : Nat) : List L.Slot :=
+%(slots)s
+
+/-- the shift of a state index in the merge of `transcribe()` -/
+def shiftGen (controlSize : Nat) : L.Slot → L.Slot
+%(shift)s
+
+/-- `discretize_control(variable, ensemble_member, times, offset)`, `ntimes = len(times)` -/
+def discretizeControlGen (cache : L.Cache) (var ntimes offset : Nat) : L.Slot × L.Cache :=
+%(dc)s
+
+/-- body of the member loop of `discretize_controls` -/
+def ctrlStepGen (b : Blk) (var : Nat) (st : L.CSt) : L.Slot × L.CSt :=
+%(cstep)s
+
+/-- loop nest of `discretize_controls` (controls outside, members inside; cache and count start empty / 0) -/
+def ctrlSlotsGen (I : Inst) : List (List L.Slot) × Nat :=
+  let r := L.ctrlNest I.E ctrlStepGen I.controls 0 { cache := [], count := 0 }
+  (r.1, r.2.count)
+
+/-- `self.__indices[m][v]` after the merge, `v` the `k`-th variable of the history-pin loop -/
+def pinSlotGen (I : Inst) (m k : Nat) : Option L.Slot :=
+  let ns := I.states.length + I.algs.length
+  if k < ns then ((stateSlotsGen I m)[k]?).map (shiftGen (ctrlSlotsGen I).2)
+  else ((ctrlSlotsGen I).1[k - ns]?).bind (·[m]?)
+
+/-- `self.__indices[m][initial_der_name]` of the `i`-th differentiated state -/
+def derSlotGen (I : Inst) (m i : Nat) : Option L.Slot :=
+  ((stateSlotsGen I m)[I.states.length + I.algs.length + I.paths.length + I.extras.length + i]?).map
+    (shiftGen (ctrlSlotsGen I).2)
+
+/-- iteration order of the history-pin loop -/
+def pinVarsGen (I : Inst) : List Blk := %(pinvars)s
+
+/-- one iteration of the history-pin loop; `idx` = first entry of the variable's indices -/
+def pinStepGen (t0 : Rat) (b : Blk) (h : Option Hist) (idx : Nat) (lbx ubx : List XVal) :
+    Option (List XVal × List XVal) :=
+%(pin)s
+
+/-- one iteration of the initial-derivative loop; `nomDer` = nominal of the initial derivative -/
+def derStepGen (t0 : Rat) (b : Blk) (h : Option Hist) (nomDer : Rat) : DerPin :=
+%(der)s
+
+/-- the nominal of the initial derivative of one state; `h0` = its entry in `self.history(0)` -/
+def derNominalGen (b : Blk) (h0 : Option Hist) : Option Rat :=
+%(dernom)s
+
+theorem memberSizeGen_eq_model (I : Inst) :
+    memberSizeGen I = L.memberSizeK I ∧ stateCountGen I = L.stateCountK I := ⟨rfl, rfl⟩
+
+theorem stateSlotsGen_eq_model (I : Inst) (m : Nat) : stateSlotsGen I m = L.stateSlotsK I m := rfl
+
+theorem shiftGen_eq_model (k : Nat) (s : L.Slot) : shiftGen k s = L.shiftK k s := by
+  cases s <;> rfl
+
+theorem discretizeControlGen_eq_model (cache : L.Cache) (var ntimes offset : Nat) :
+    discretizeControlGen cache var ntimes offset = L.discretizeControlK cache var ntimes offset := rfl
+
+theorem ctrlSlotsGen_eq_model (I : Inst) : ctrlSlotsGen I = L.ctrlSlotsK I := rfl
+
+theorem pinVarsGen_eq_model (I : Inst) : pinVarsGen I = C05.pinVars I := by
+  simp [pinVarsGen, C05.pinVars]
+
+theorem pinStepGen_eq_model (t0 : Rat) (b : Blk) (h : Option Hist) (idx : Nat) (lbx ubx : List XVal) :
+    pinStepGen t0 b h idx lbx ubx = L.pinStepK t0 b h idx lbx ubx := rfl
+
+theorem derStepGen_eq_model (t0 : Rat) (b : Blk) (h : Option Hist) (nomDer : Rat) :
+    derStepGen t0 b h nomDer = L.derStepK t0 b h nomDer := rfl
+
+theorem derNominalGen_eq_model (b : Blk) (h0 : Option Hist) : derNominalGen b h0 = L.derNominalK b h0 := rfl
+
+/-- the nominal the initial-derivative pin is divided by is the model's `derNominal` -/
+theorem derNominalGen_is_derNominal (b : Blk) (h0 : Option Hist) : derNominalGen b h0 = derNominal b h0 :=
+  L.derNominalK_eq b h0
+
+private theorem shiftGen_fun (k : Nat) : shiftGen k = L.shiftK k := funext (shiftGen_eq_model k)
+
+/-- the index table built by the source is the layout model of `stateIndex_range / injective / surjective` -/
+theorem layoutGen_is_stateIndex (I : Inst) (m j : Nat) (b : Blk) (hE : 0 < I.E)
+    (hsz : ∀ b ∈ I.controls, b.size = 1) (hex : L.ExtrasOneStamp I) (hb : (stateBlocks I)[j]? = some b) :
+    memberSizeGen I = memberSize I ∧
+    ∃ s, ((stateSlotsGen I m)[j]?).map (shiftGen (ctrlSlotsGen I).2) = some s ∧ s.stop = s.first + b.len ∧
+      ∀ c i, s.first + (c * b.n + i) = stateIndex I m j c i := by
+  rw [shiftGen_fun]
+  exact ⟨L.memberSizeK_eq I hex, L.stateSlot_is_stateIndex I m j b hE hsz hex hb⟩
+
+/-- ... and of `ctrlIndex_*` (one shared slice per control) -/
+theorem layoutGen_is_ctrlIndex (I : Inst) (hE : 0 < I.E) (hsz : ∀ b ∈ I.controls, b.size = 1)
+    (m j : Nat) (b : Blk) (hm : m < I.E) (hb : I.controls[j]? = some b) :
+    (ctrlSlotsGen I).2 = ctrlSize I ∧
+    ∃ s, ((ctrlSlotsGen I).1[j]?).bind (·[m]?) = some s ∧ s.stop = s.first + b.n ∧
+      ∀ i, s.first + i = ctrlIndex I j i :=
+  L.ctrlSlot_is_ctrlIndex I hE hsz m j b hm hb
+
+/-- the entry the history pin writes is the model's `pinIndex`, the pin is one step of `applyPins` -/
+theorem pinGen_is_applyPins (I : Inst) (m k : Nat) (b : Blk) (h : Option Hist) (lo hi : List XVal)
+    (hE : 0 < I.E) (hm : m < I.E) (hex : L.ExtrasOneStamp I) (hsz : ∀ b ∈ I.controls, b.size = 1)
+    (hk : k < (pinVarsGen I).length) :
+    ∃ s, pinSlotGen I m k = some s ∧ s.first = pinIndex I m k ∧
+      pinStepGen I.t0 b h s.first lo hi = applyPins I m [(b, h)] k (lo, hi) := by
+  rw [pinVarsGen_eq_model] at hk
+  obtain ⟨s, h1, h2⟩ := L.pinSlot_first I m k hE hm hex hsz hk
+  refine ⟨s, ?_, h2, ?_⟩
+  · unfold pinSlotGen; rw [shiftGen_fun]; exact h1
+  · rw [h2]; exact L.pinStepK_eq I m k b h lo hi
+
+/-- the initial-derivative iteration is the model's `derPin`, written at the model's `derIndex` -/
+theorem derGen_is_derPin (I : Inst) (m i : Nat) (b : Blk) (h : Option Hist) (nomDer : Rat)
+    (hE : 0 < I.E) (hex : L.ExtrasOneStamp I) (hsz : ∀ b ∈ I.controls, b.size = 1) (hi : i < I.states.length) :
+    derStepGen I.t0 b h nomDer = derPin I.t0 b h nomDer ∧
+    ∃ s, derSlotGen I m i = some s ∧ s.first = derIndex I m i := by
+  refine ⟨L.derStepK_eq I.t0 b h nomDer, ?_⟩
+  obtain ⟨s, h1, h2⟩ := L.derSlot_first I m i hex hE hsz hi
+  exact ⟨s, by unfold derSlotGen; rw [shiftGen_fun]; exact h1, h2⟩
+
+end RtcVerif.Gen.LayoutPins
+"""
+
+THEOREMS2 = ["memberSizeGen_eq_model", "stateSlotsGen_eq_model", "shiftGen_eq_model", "discretizeControlGen_eq_model",
+             "ctrlSlotsGen_eq_model", "pinVarsGen_eq_model", "pinStepGen_eq_model", "derStepGen_eq_model",
+             "derNominalGen_eq_model", "derNominalGen_is_derNominal",
+             "layoutGen_is_stateIndex", "layoutGen_is_ctrlIndex", "pinGen_is_applyPins", "derGen_is_derPin"]
+
+
+def translate_layout_pins():
+    path = os.path.join(REPO, SRC)
+    tree = ast.parse(open(path).read())
+    size, slots = _tr_discretize_states(_find_method(tree, CLS, "discretize_states"))
+    dc = _tr_discretize_control(_find_method(tree, CLS, "discretize_control"))
+    cstep = _tr_discretize_controls(_find_method(tree, CLS, "discretize_controls"))
+    tr = _find_method(tree, CLS, "transcribe")
+    shift = _tr_merge(tr)
+    pinvars, pin, der = _tr_history(tr)
+    dernom = _tr_der_nominals(tr)
+    return dict(dernom=dernom, size=size, slots=slots, dc=dc, cstep=cstep, shift=shift, pinvars=pinvars.strip("()"), pin=pin, der=der)
+
+
+def gen_layout_pins(c):
+    """(re)generate lean/RtcVerif/Gen/LayoutPins.lean; returns the extra obligation spec for c.prove"""
+    gdir = os.path.join(LEAN_DIR, "RtcVerif", "Gen")
+    os.makedirs(gdir, exist_ok=True)
+    path = os.path.join(gdir, "LayoutPins.lean")
+    what = "translator: discretize_states / discretize_controls / history pins of transcribe()"
+    try:
+        parts = translate_layout_pins()
+    except TranslationError as e:
+        c.broken.append((what, str(e)))
+        return []
+    except (OSError, SyntaxError) as e:
+        c.broken.append((what, "cannot read/parse the source: %s" % e))
+        return []
+    text = GEN2 % parts
+    old = open(path).read() if os.path.exists(path) else None
+    if old != text:
+        tmp = path + ".tmp%d" % os.getpid()
+        with open(tmp, "w") as f:
+            f.write(text)
+        os.replace(tmp, path)
+    return [("RtcVerif.Gen.LayoutPins", "RtcVerif.Gen.LayoutPins", THEOREMS2)]
